@@ -75,13 +75,38 @@ Qed.
 Lemma right_move_piece s a b r : right (move_piece zt s a b) r = right s r.
 Proof. unfold move_piece. destruct (get (board s) a); destruct r; reflexivity. Qed.
 
-Lemma right_moved_board s pc sq mov nb r : moved_board zt s pc sq mov = Some nb -> right nb r = right s r.
+(* the clone as it stands when the generator tests it for self-check *)
+Definition moved_pre (s : BoardState) (pc : piece) (sq mov : point) : BoardState :=
+  let c := pcolor pc in
+  let nb := with_promo s None in
+  let nb := swap_color zt nb in
+  let nb := match pkind pc with King => set_king nb c mov | _ => nb end in
+  let nb := with_oh nb (match get (board nb) mov with Full tp => mvv_lva tp pc | _ => 0 end) in
+  let nb := move_piece zt nb sq mov in
+  with_last nb (Some (sq, mov)).
+
+Lemma moved_board_pre s pc sq mov :
+  moved_board zt s pc sq mov = if is_check (moved_pre s pc sq mov) (pcolor pc) then None else Some (moved_pre s pc sq mov).
+Proof. reflexivity. Qed.
+
+Lemma moved_board_some s pc sq mov nb :
+  moved_board zt s pc sq mov = Some nb <-> nb = moved_pre s pc sq mov /\ is_check (moved_pre s pc sq mov) (pcolor pc) = false.
 Proof.
-  unfold moved_board. match goal with |- (if ?c then _ else _) = _ -> _ => destruct c; [discriminate|] end.
-  intros H. injection H as <-.
-  rewrite right_with_last, right_move_piece, right_with_oh.
+  rewrite moved_board_pre. destruct (is_check (moved_pre s pc sq mov) (pcolor pc)); split.
+  - discriminate.
+  - intros [_ H]. discriminate.
+  - intros H. injection H as <-. auto.
+  - intros [-> _]. reflexivity.
+Qed.
+
+Lemma right_moved_pre s pc sq mov r : right (moved_pre s pc sq mov) r = right s r.
+Proof.
+  unfold moved_pre. rewrite right_with_last, right_move_piece, right_with_oh.
   destruct (pkind pc); rewrite ?right_set_king, right_swap_color, right_with_promo; reflexivity.
 Qed.
+
+Lemma right_moved_board s pc sq mov nb r : moved_board zt s pc sq mov = Some nb -> right nb r = right s r.
+Proof. intros H. apply moved_board_some in H. destruct H as [-> _]. apply right_moved_pre. Qed.
 
 End R.
 
@@ -173,23 +198,27 @@ Proof.
   repeat match goal with |- context [match ?x with _ => _ end] => destruct x end; reflexivity.
 Qed.
 
-Lemma to_move_moved_board s pc sq mov nb : moved_board zt s pc sq mov = Some nb -> to_move nb = opposite (to_move s).
+Lemma to_move_moved_pre s pc sq mov : to_move (moved_pre zt s pc sq mov) = opposite (to_move s).
 Proof.
-  unfold moved_board. match goal with |- (if ?c then _ else _) = _ -> _ => destruct c; [discriminate|] end.
-  intros H. injection H as <-. cbn [with_last to_move]. unfold move_piece.
+  unfold moved_pre. cbn [with_last to_move]. unfold move_piece.
   match goal with |- context [match ?x with _ => _ end] => destruct x end;
     cbn [to_move with_key with_board with_oh]; destruct (pkind pc); try destruct (pcolor pc); reflexivity.
 Qed.
 
-Lemma moved_board_board s pc sq mov nb : moved_board zt s pc sq mov = Some nb -> board nb = board (move_piece zt s sq mov).
+Lemma to_move_moved_board s pc sq mov nb : moved_board zt s pc sq mov = Some nb -> to_move nb = opposite (to_move s).
+Proof. intros H. apply moved_board_some in H. destruct H as [-> _]. apply to_move_moved_pre. Qed.
+
+Lemma moved_pre_board s pc sq mov : board (moved_pre zt s pc sq mov) = board (move_piece zt s sq mov).
 Proof.
-  unfold moved_board. match goal with |- (if ?c then _ else _) = _ -> _ => destruct c; [discriminate|] end.
-  intros H. injection H as <-. cbn [with_last board]. unfold move_piece.
+  unfold moved_pre. cbn [with_last board]. unfold move_piece.
   assert (B : forall X, board (with_oh (match pkind pc with King => set_king (swap_color zt (with_promo s None)) (pcolor pc) mov
                                         | _ => swap_color zt (with_promo s None) end) X) = board s).
   { intros X. destruct (pkind pc); try destruct (pcolor pc); reflexivity. }
   rewrite !B. destruct (get (board s) sq); cbn [board with_key with_board]; rewrite ?B; reflexivity.
 Qed.
+
+Lemma moved_board_board s pc sq mov nb : moved_board zt s pc sq mov = Some nb -> board nb = board (move_piece zt s sq mov).
+Proof. intros H. apply moved_board_some in H. destruct H as [-> _]. apply moved_pre_board. Qed.
 
 Lemma pdm_rights s pc sq mov :
   pawn_double_move (rights_from_target zt (rights_from_origin zt s pc sq) mov) = pawn_double_move s.
@@ -210,7 +239,7 @@ Proof.
 Qed.
 
 (* the theorem for ordinary moves *)
-Theorem ordinary_successor_abs s pc sq mov nb :
+Theorem ordinary_pre_abs s pc sq mov :
   cells_ok (board s) -> kings_ok s -> rights_home s ->
   get (board s) sq = Full pc -> is_inner sq = true -> is_inner mov = true -> sq <> mov ->
   (forall col, get (board s) mov <> Full (mkPiece col King)) ->
@@ -221,10 +250,9 @@ Theorem ordinary_successor_abs s pc sq mov nb :
   (pkind pc = Pawn -> snd sq <> snd mov -> get (board s) mov <> Empty) ->
   (* a king steps at most one file (castling is a separate constructor) *)
   (pkind pc = King -> Z.abs (snd sq - snd mov) <= 1) ->
-  moved_board zt s pc sq mov = Some nb ->
-  abs (finalise zt nb pc sq mov) = apply (abs s) (mkMove (sq_of_pt sq) (sq_of_pt mov) None).
+  abs (finalise zt (moved_pre zt s pc sq mov) pc sq mov) = apply (abs s) (mkMove (sq_of_pt sq) (sq_of_pt mov) None).
 Proof.
-  intros OK KO RH G Hs Hm Hne NK PD PC KS MB.
+  intros OK KO RH G Hs Hm Hne NK PD PC KS.
   destruct OK as [L [Ring Inner]].
   pose proof (proj1 (inner_on8 sq) Hs) as OnS. pose proof (proj1 (inner_on8 mov) Hm) as OnM.
   assert (Mover : pget (abs_placement (board s)) (sq_of_pt sq) = Some pc).
@@ -247,37 +275,37 @@ Proof.
   rewrite Mover.
   f_equal.
   - (* placement *)
-    rewrite finalise_board, (moved_board_board _ _ _ _ _ MB). unfold move_piece. rewrite G. cbn [board with_key with_board].
+    rewrite finalise_board, (moved_pre_board s pc sq mov). unfold move_piece. rewrite G. cbn [board with_key with_board].
     rewrite abs_placement_set by (auto; now rewrite set_length).
     rewrite abs_placement_set by auto. reflexivity.
-  - rewrite to_move_finalise. apply (to_move_moved_board _ _ _ _ _ MB).
+  - rewrite to_move_finalise. apply to_move_moved_pre.
   - (* K *)
-    change (wks (finalise zt nb pc sq mov)) with (right (finalise zt nb pc sq mov) WKS).
-    rewrite right_finalise, (right_moved_board zt _ _ _ _ _ WKS MB). cbn [right].
+    change (wks (finalise zt (moved_pre zt s pc sq mov) pc sq mov)) with (right (finalise zt (moved_pre zt s pc sq mov) pc sq mov) WKS).
+    rewrite right_finalise, (right_moved_pre zt s pc sq mov WKS). cbn [right].
     destruct (wks s) eqn:R; [|reflexivity]. cbn [andb].
     rewrite <- negb_orb, (clears_iff_touches s pc sq mov WKS RH KO R G NK).
     unfold touches. cbn [mfrom mto king_home rook_home]. rewrite !sq_eqb_pt.
     change (pt_of_sq (4, 0)) with (9, 6). change (pt_of_sq (7, 0)) with (9, 9).
     destruct (point_eqb sq (9, 6)), (point_eqb mov (9, 6)), (point_eqb sq (9, 9)), (point_eqb mov (9, 9)); reflexivity.
   - (* Q *)
-    change (wqs (finalise zt nb pc sq mov)) with (right (finalise zt nb pc sq mov) WQS).
-    rewrite right_finalise, (right_moved_board zt _ _ _ _ _ WQS MB). cbn [right].
+    change (wqs (finalise zt (moved_pre zt s pc sq mov) pc sq mov)) with (right (finalise zt (moved_pre zt s pc sq mov) pc sq mov) WQS).
+    rewrite right_finalise, (right_moved_pre zt s pc sq mov WQS). cbn [right].
     destruct (wqs s) eqn:R; [|reflexivity]. cbn [andb].
     rewrite <- negb_orb, (clears_iff_touches s pc sq mov WQS RH KO R G NK).
     unfold touches. cbn [mfrom mto king_home rook_home]. rewrite !sq_eqb_pt.
     change (pt_of_sq (4, 0)) with (9, 6). change (pt_of_sq (0, 0)) with (9, 2).
     destruct (point_eqb sq (9, 6)), (point_eqb mov (9, 6)), (point_eqb sq (9, 2)), (point_eqb mov (9, 2)); reflexivity.
   - (* k *)
-    change (bks (finalise zt nb pc sq mov)) with (right (finalise zt nb pc sq mov) BKS).
-    rewrite right_finalise, (right_moved_board zt _ _ _ _ _ BKS MB). cbn [right].
+    change (bks (finalise zt (moved_pre zt s pc sq mov) pc sq mov)) with (right (finalise zt (moved_pre zt s pc sq mov) pc sq mov) BKS).
+    rewrite right_finalise, (right_moved_pre zt s pc sq mov BKS). cbn [right].
     destruct (bks s) eqn:R; [|reflexivity]. cbn [andb].
     rewrite <- negb_orb, (clears_iff_touches s pc sq mov BKS RH KO R G NK).
     unfold touches. cbn [mfrom mto king_home rook_home]. rewrite !sq_eqb_pt.
     change (pt_of_sq (4, 7)) with (2, 6). change (pt_of_sq (7, 7)) with (2, 9).
     destruct (point_eqb sq (2, 6)), (point_eqb mov (2, 6)), (point_eqb sq (2, 9)), (point_eqb mov (2, 9)); reflexivity.
   - (* q *)
-    change (bqs (finalise zt nb pc sq mov)) with (right (finalise zt nb pc sq mov) BQS).
-    rewrite right_finalise, (right_moved_board zt _ _ _ _ _ BQS MB). cbn [right].
+    change (bqs (finalise zt (moved_pre zt s pc sq mov) pc sq mov)) with (right (finalise zt (moved_pre zt s pc sq mov) pc sq mov) BQS).
+    rewrite right_finalise, (right_moved_pre zt s pc sq mov BQS). cbn [right].
     destruct (bqs s) eqn:R; [|reflexivity]. cbn [andb].
     rewrite <- negb_orb, (clears_iff_touches s pc sq mov BQS RH KO R G NK).
     unfold touches. cbn [mfrom mto king_home rook_home]. rewrite !sq_eqb_pt.
@@ -299,6 +327,22 @@ Proof.
       rewrite Z.mul_comm, Z.div_mul by lia. reflexivity.
     + specialize (HB eq_refl). replace (10 - 1 - fst sq + (10 - 1 - fst mov)) with (2 * (10 - 1 - (fst mov - 1))) by lia.
       rewrite Z.mul_comm, Z.div_mul by lia. reflexivity.
+Qed.
+
+
+Theorem ordinary_successor_abs s pc sq mov nb :
+  cells_ok (board s) -> kings_ok s -> rights_home s ->
+  get (board s) sq = Full pc -> is_inner sq = true -> is_inner mov = true -> sq <> mov ->
+  (forall col, get (board s) mov <> Full (mkPiece col King)) ->
+  (pkind pc = Pawn -> Z.abs (fst sq - fst mov) = 2 ->
+     snd sq = snd mov /\ (pcolor pc = White -> fst sq = fst mov + 2) /\ (pcolor pc = Black -> fst mov = fst sq + 2)) ->
+  (pkind pc = Pawn -> snd sq <> snd mov -> get (board s) mov <> Empty) ->
+  (pkind pc = King -> Z.abs (snd sq - snd mov) <= 1) ->
+  moved_board zt s pc sq mov = Some nb ->
+  abs (finalise zt nb pc sq mov) = apply (abs s) (mkMove (sq_of_pt sq) (sq_of_pt mov) None).
+Proof.
+  intros OK KO RH G Hs Hm Hne NK PD PC KS MB. apply moved_board_some in MB. destruct MB as [-> _].
+  now apply ordinary_pre_abs.
 Qed.
 
 End Ord.
@@ -351,22 +395,21 @@ End Promo.
 Section More.
 Variable zt : ztable.
 
-Theorem promotion_successor_abs s pc sq mov nb x :
+Theorem promotion_pre_abs s pc sq mov x :
   cells_ok (board s) -> kings_ok s -> rights_home s ->
   get (board s) sq = Full pc -> is_inner sq = true -> is_inner mov = true -> sq <> mov ->
   (forall col, get (board s) mov <> Full (mkPiece col King)) ->
   pkind pc = Pawn -> Z.abs (fst sq - fst mov) <> 2 ->
   (snd sq <> snd mov -> get (board s) mov <> Empty) ->
-  moved_board zt s pc sq mov = Some nb ->
-  In x (promote_pawn zt (finalise zt nb pc sq mov) (pcolor pc) sq mov) ->
+  In x (promote_pawn zt (finalise zt (moved_pre zt s pc sq mov) pc sq mov) (pcolor pc) sq mov) ->
   exists k, In k PROMOTION_KINDS /\ pawn_promotion x = Some (mkPiece (pcolor pc) k) /\
             abs x = apply (abs s) (mkMove (sq_of_pt sq) (sq_of_pt mov) (Some k)).
 Proof.
-  intros OK KO RH G Hs Hm Hne NK PK D2 PC MB Hx.
+  intros OK KO RH G Hs Hm Hne NK PK D2 PC Hx.
   unfold promote_pawn in Hx. apply in_map_iff in Hx. destruct Hx as [k [<- Hk]].
   exists k. split; [exact Hk|]. split; [reflexivity|].
-  assert (Ord : abs (finalise zt nb pc sq mov) = apply (abs s) (mkMove (sq_of_pt sq) (sq_of_pt mov) None)).
-  { apply (ordinary_successor_abs zt s pc sq mov nb OK KO RH G Hs Hm Hne NK); [| | |exact MB].
+  assert (Ord : abs (finalise zt (moved_pre zt s pc sq mov) pc sq mov) = apply (abs s) (mkMove (sq_of_pt sq) (sq_of_pt mov) None)).
+  { apply (ordinary_pre_abs zt s pc sq mov OK KO RH G Hs Hm Hne NK).
     - intros _ D. contradiction.
     - intros _ Hc. apply PC. exact Hc.
     - intros K. rewrite PK in K. discriminate. }
@@ -387,10 +430,25 @@ Proof.
   { unfold is_castle_move. cbn [mfrom mto]. rewrite Mover. cbn [is_king]. rewrite PK. reflexivity. }
   rewrite (apply_promotion (abs s) _ _ k pc Mover NotEp NotCastle). cbn zeta. rewrite <- Ord.
   apply abs_promoted.
-  - rewrite finalise_board, (moved_board_board zt _ _ _ _ _ MB). unfold move_piece. rewrite G.
+  - rewrite finalise_board, (moved_pre_board zt s pc sq mov). unfold move_piece. rewrite G.
     cbn [board with_key with_board]. now rewrite !set_length.
   - exact Hm.
   - rewrite pdm_finalise. destruct (Z.eqb_spec (Z.abs (fst sq - fst mov)) 2); [contradiction|]. now rewrite andb_false_r.
+Qed.
+
+Theorem promotion_successor_abs s pc sq mov nb x :
+  cells_ok (board s) -> kings_ok s -> rights_home s ->
+  get (board s) sq = Full pc -> is_inner sq = true -> is_inner mov = true -> sq <> mov ->
+  (forall col, get (board s) mov <> Full (mkPiece col King)) ->
+  pkind pc = Pawn -> Z.abs (fst sq - fst mov) <> 2 ->
+  (snd sq <> snd mov -> get (board s) mov <> Empty) ->
+  moved_board zt s pc sq mov = Some nb ->
+  In x (promote_pawn zt (finalise zt nb pc sq mov) (pcolor pc) sq mov) ->
+  exists k, In k PROMOTION_KINDS /\ pawn_promotion x = Some (mkPiece (pcolor pc) k) /\
+            abs x = apply (abs s) (mkMove (sq_of_pt sq) (sq_of_pt mov) (Some k)).
+Proof.
+  intros OK KO RH G Hs Hm Hne NK PK D2 PC MB Hx. apply moved_board_some in MB. destruct MB as [-> _].
+  now apply (promotion_pre_abs s pc sq mov x).
 Qed.
 
 (* ---- en passant *)
@@ -407,17 +465,36 @@ Proof.
   now rewrite !andb_false_r.
 Qed.
 
-Theorem en_passant_successor_abs s pc sq x :
+Definition ep_pre (s : BoardState) (pc : piece) (sq mov : point) : BoardState :=
+  let nb := with_promo s None in
+  let nb := with_last nb (Some (sq, mov)) in
+  let nb := swap_color zt nb in
+  let nb := unset_pawn_double_move zt nb in
+  let nb := move_piece zt nb sq mov in
+  let victim_sq := match pcolor pc with White => (fst mov + 1, snd mov) | Black => (fst mov - 1, snd mov) end in
+  let nb := with_board nb (set (board nb) victim_sq Empty) in
+  kx nb (z_piece zt (mkPiece (opposite (pcolor pc)) Pawn) victim_sq).
+
+Lemma en_passant_successor_pre s pc sq :
+  en_passant_successor zt s pc sq =
+  match pawn_double_move s, pkind pc with
+  | Some _, Pawn =>
+      match pawn_moves_en_passant pc sq s with
+      | None => []
+      | Some mov => if negb (is_check (ep_pre s pc sq mov) (to_move s)) then [ep_pre s pc sq mov] else []
+      end
+  | _, _ => []
+  end.
+Proof. reflexivity. Qed.
+
+Theorem ep_pre_abs s pc sq dm mov :
   cells_ok (board s) -> ep_ok_model s ->
   get (board s) sq = Full pc -> is_inner sq = true -> pcolor pc = to_move s ->
-  In x (en_passant_successor zt s pc sq) ->
-  exists mov, pawn_double_move s = Some mov /\ last_move x = Some (sq, mov) /\ pawn_promotion x = None /\
-              abs x = apply (abs s) (mkMove (sq_of_pt sq) (sq_of_pt mov) None).
+  pawn_double_move s = Some dm -> pkind pc = Pawn -> pawn_moves_en_passant pc sq s = Some mov ->
+  mov = dm /\ last_move (ep_pre s pc sq mov) = Some (sq, mov) /\ pawn_promotion (ep_pre s pc sq mov) = None /\
+  abs (ep_pre s pc sq mov) = apply (abs s) (mkMove (sq_of_pt sq) (sq_of_pt mov) None).
 Proof.
-  intros OK EP G Hs PC Hx. unfold en_passant_successor in Hx.
-  destruct (pawn_double_move s) as [dm|] eqn:D; [|contradiction].
-  destruct (pkind pc) eqn:PK; try contradiction.
-  destruct (pawn_moves_en_passant pc sq s) as [mov|] eqn:E; [|contradiction].
+  intros OK EP G Hs PC D PK E.
   (* geometry of the capture *)
   assert (Geo : mov = dm /\ (snd mov = snd sq + 1 \/ snd mov = snd sq - 1) /\
                 match pcolor pc with White => fst sq = EP_ROW_WHITE /\ fst mov = fst sq - 1
@@ -429,9 +506,7 @@ Proof.
     try discriminate; inversion E; subst; cbn [fst snd]; repeat split; auto; lia. }
   destruct Geo as [-> [Col Row]].
   destruct (EP dm D) as [Hm [Gt [Hv Gv]]].
-  match type of Hx with In x (if ?c then _ else _) => destruct c; [|contradiction] end.
-  destruct Hx as [<-|[]].
-  exists dm. split; [reflexivity|].
+  split; [reflexivity|]. unfold ep_pre.
   assert (B0 : board (unset_pawn_double_move zt (swap_color zt (with_last (with_promo s None) (Some (sq, dm))))) = board s)
     by (rewrite unset_pdm_board; reflexivity).
   split.
@@ -489,6 +564,24 @@ Proof.
   rewrite abs_placement_set by (auto; now rewrite set_length).
   rewrite abs_placement_set by auto.
   rewrite Vsq. reflexivity.
+Qed.
+
+
+Theorem en_passant_successor_abs s pc sq x :
+  cells_ok (board s) -> ep_ok_model s ->
+  get (board s) sq = Full pc -> is_inner sq = true -> pcolor pc = to_move s ->
+  In x (en_passant_successor zt s pc sq) ->
+  exists mov, pawn_double_move s = Some mov /\ last_move x = Some (sq, mov) /\ pawn_promotion x = None /\
+              abs x = apply (abs s) (mkMove (sq_of_pt sq) (sq_of_pt mov) None).
+Proof.
+  intros OK EP G Hs PC Hx. rewrite en_passant_successor_pre in Hx.
+  destruct (pawn_double_move s) as [dm|] eqn:D; [|contradiction].
+  destruct (pkind pc) eqn:PK; try contradiction.
+  destruct (pawn_moves_en_passant pc sq s) as [mov|] eqn:E; [|contradiction].
+  destruct (negb (is_check (ep_pre s pc sq mov) (to_move s))); [|contradiction].
+  destruct Hx as [<-|[]].
+  destruct (ep_pre_abs s pc sq dm mov OK EP G Hs PC D PK E) as (-> & HL & HP & HA).
+  exists dm. auto.
 Qed.
 
 End More.
